@@ -144,3 +144,122 @@ fn c13_timestamp_order_is_userkey_asc_ts_desc() {
 	kani::cover!(ua != ub, "different user keys");
 	core::mem::forget(c);
 }
+
+/// C13-O5c: the memtable's order (`impl Ord for InternalKey`) and the tables' order
+/// (InternalKeyComparator on encoded keys) agree whenever two keys differ in user key or sequence
+/// number - the merge of memtables and tables relies on one order.
+#[kani::proof]
+#[kani::unwind(10)]
+fn c13_memtable_order_agrees_with_table_order() {
+	let (a, la, sa, ta) = any_encoded();
+	let (b, lb, sb, tb) = any_encoded();
+	let (ea, eb) = (&a[..la], &b[..lb]);
+	let (ua, ub) = (&a[..la - 16], &b[..lb - 16]);
+	kani::assume(ua != ub || sa != sb);
+	let ka = InternalKey { user_key: ua.to_vec(), timestamp: ta, trailer: u64::from_be_bytes([a[la - 16], a[la - 15], a[la - 14], a[la - 13], a[la - 12], a[la - 11], a[la - 10], a[la - 9]]) };
+	let kb = InternalKey { user_key: ub.to_vec(), timestamp: tb, trailer: u64::from_be_bytes([b[lb - 16], b[lb - 15], b[lb - 14], b[lb - 13], b[lb - 12], b[lb - 11], b[lb - 10], b[lb - 9]]) };
+	assert!(ka.seq_num() == sa && kb.seq_num() == sb, "InternalKey::seq_num disagrees with the encoding");
+	let c = InternalKeyComparator::new(Arc::new(BytewiseComparator {}));
+	assert!(ka.cmp(&kb) == c.compare(ea, eb), "memtable order (impl Ord for InternalKey) and table order (InternalKeyComparator) disagree");
+	kani::cover!(ua == ub && sa > sb, "same user key, different versions");
+	kani::cover!(ua != ub, "different user keys");
+	core::mem::forget(ka);
+	core::mem::forget(kb);
+	core::mem::forget(c);
+}
+
+/// C06-O2b: the internal bounds a user range is translated to bracket EVERY version of the boundary
+/// key: with an included bound all versions of the key lie inside the range, with an excluded bound
+/// all of them lie outside - for every version (sequence number 1..2^56-2, any kind the API writes,
+/// any timestamp).  One bound per instance (each needs two heap-encoded keys).
+/// which: 0 = included lower, 1 = included upper, 2 = excluded lower, 3 = excluded upper
+fn range_bound_brackets(which: u8) {
+	use std::ops::Bound;
+	let uk: [u8; 2] = kani::any();
+	let ul: usize = kani::any();
+	kani::assume(ul <= 2);
+	let k = &uk[..ul];
+	let (v, lv, seq, _ts) = any_encoded_with_key(&uk, ul);
+	let ev = &v[..lv];
+	kani::assume(seq >= 1 && seq < crate::INTERNAL_KEY_SEQ_NUM_MAX);
+	let c = InternalKeyComparator::new(Arc::new(BytewiseComparator {}));
+	let (lo, hi) = match which {
+		0 => crate::user_range_to_internal_range(Bound::Included(k), Bound::Unbounded),
+		1 => crate::user_range_to_internal_range(Bound::Unbounded, Bound::Included(k)),
+		2 => crate::user_range_to_internal_range(Bound::Excluded(k), Bound::Unbounded),
+		_ => crate::user_range_to_internal_range(Bound::Unbounded, Bound::Excluded(k)),
+	};
+	match (which, &lo, &hi) {
+		(0, Bound::Included(l), Bound::Unbounded) => {
+			let e = l.encode();
+			assert!(c.compare(&e, ev) != Ordering::Greater, "included lower bound sorts after a version of its key (the version would be skipped)");
+			core::mem::forget(e);
+		}
+		(1, Bound::Unbounded, Bound::Included(h)) => {
+			let e = h.encode();
+			assert!(c.compare(ev, &e) != Ordering::Greater, "included upper bound sorts before a version of its key (the version would be cut off)");
+			core::mem::forget(e);
+		}
+		(2, Bound::Excluded(l), Bound::Unbounded) => {
+			let e = l.encode();
+			assert!(c.compare(ev, &e) != Ordering::Greater, "excluded lower bound sorts before a version of its key (the key would be returned)");
+			core::mem::forget(e);
+		}
+		(3, Bound::Unbounded, Bound::Excluded(h)) => {
+			let e = h.encode();
+			assert!(c.compare(&e, ev) != Ordering::Greater, "excluded upper bound sorts after a version of its key (the key would be returned)");
+			core::mem::forget(e);
+		}
+		_ => assert!(false, "bound kind changed by the translation"),
+	}
+	kani::cover!(ul == 0, "empty user key");
+	kani::cover!(seq > (1 << 48), "version with a large sequence number");
+	core::mem::forget((lo, hi));
+	core::mem::forget(c);
+}
+
+/// encoded version of the GIVEN user key: trailer (seq, API kind) and timestamp symbolic
+fn any_encoded_with_key(uk: &[u8; 2], ul: usize) -> ([u8; 18], usize, u64, u64) {
+	let seq: u64 = kani::any();
+	kani::assume(seq <= crate::INTERNAL_KEY_SEQ_NUM_MAX);
+	let kind: u8 = kani::any();
+	kani::assume(kind <= 2 || kind == 6); // Delete, SoftDelete, Set, Replace
+	let ts: u64 = kani::any();
+	let trailer = (seq << 8) | kind as u64;
+	let mut buf = [0u8; 18];
+	let mut i = 0;
+	while i < ul {
+		buf[i] = uk[i];
+		i += 1;
+	}
+	let tb = trailer.to_be_bytes();
+	let sb = ts.to_be_bytes();
+	let mut j = 0;
+	while j < 8 {
+		buf[ul + j] = tb[j];
+		buf[ul + 8 + j] = sb[j];
+		j += 1;
+	}
+	(buf, ul + 16, seq, ts)
+}
+
+#[kani::proof]
+#[kani::unwind(10)]
+fn c06_range_bound_brackets_included_lower() {
+	range_bound_brackets(0);
+}
+#[kani::proof]
+#[kani::unwind(10)]
+fn c06_range_bound_brackets_included_upper() {
+	range_bound_brackets(1);
+}
+#[kani::proof]
+#[kani::unwind(10)]
+fn c06_range_bound_brackets_excluded_lower() {
+	range_bound_brackets(2);
+}
+#[kani::proof]
+#[kani::unwind(10)]
+fn c06_range_bound_brackets_excluded_upper() {
+	range_bound_brackets(3);
+}
